@@ -8,8 +8,9 @@ import (
 
 // WeightedRoundRobinStrategy implements a smooth weighted round-robin load balancing strategy.
 type WeightedRoundRobinStrategy struct {
-	backends []*weightedBackend
-	mutex    sync.RWMutex
+	backends     []*weightedBackend
+	lastEligible []*weightedBackend // candidates of the previous pick
+	mutex        sync.RWMutex
 }
 
 // weightedBackend holds the backend and its current weight.
@@ -35,19 +36,33 @@ func (wrr *WeightedRoundRobinStrategy) NextBackend(r *http.Request) *Backend {
 	}
 
 	// This algorithm is based on the smooth weighted round-robin balancing algorithm used in Nginx.
-	totalWeight := 0
-	var best *weightedBackend
-
+	// The running weights are only meaningful for a fixed set of candidates: when the
+	// set of eligible backends differs from the one of the previous pick (membership
+	// or health change) start again from zero, as nginx does on reconfiguration.
 	now := time.Now()
+	eligible := make([]*weightedBackend, 0, len(wrr.backends))
 	for _, wb := range wrr.backends {
 		// Only consider backends outside an unhealthy window
 		if wb.backend.eligible(now) {
-			totalWeight += wb.backend.Weight
-			wb.currentWeight += wb.backend.Weight
+			eligible = append(eligible, wb)
+		}
+	}
+	if !sameBackends(eligible, wrr.lastEligible) {
+		for _, wb := range wrr.backends {
+			wb.currentWeight = 0
+		}
+		wrr.lastEligible = eligible
+	}
 
-			if best == nil || wb.currentWeight > best.currentWeight {
-				best = wb
-			}
+	totalWeight := 0
+	var best *weightedBackend
+
+	for _, wb := range eligible {
+		totalWeight += wb.backend.Weight
+		wb.currentWeight += wb.backend.Weight
+
+		if best == nil || wb.currentWeight > best.currentWeight {
+			best = wb
 		}
 	}
 
@@ -57,6 +72,19 @@ func (wrr *WeightedRoundRobinStrategy) NextBackend(r *http.Request) *Backend {
 
 	best.currentWeight -= totalWeight
 	return best.backend
+}
+
+// sameBackends reports whether two candidate lists hold the same backends in the same order.
+func sameBackends(a, b []*weightedBackend) bool {
+	if len(a) != len(b) {
+		return false
+	}
+	for i := range a {
+		if a[i] != b[i] {
+			return false
+		}
+	}
+	return true
 }
 
 // AddBackend adds a backend to the pool.
